@@ -1,4 +1,5 @@
 import SparseSpace.Model.Exactness
+import SparseSpace.Model.DimWise
 import SparseSpace.Drive.Util
 /-! Line-protocol driver for the exactness model (C04).
 
@@ -25,6 +26,8 @@ import SparseSpace.Drive.Util
     cellint <spec_0> ..                      → p/q
     cellparents <lmin..> <lv..>              → [[..]:c,..]
     thr <l> <sub> <lmin>                     → int     (level threshold of a component grid with clipped subtraction value)
+    subv <version> <dim> <d> <lmin> <lmax_d> <mc_0,..> <max_level> <l>
+                                             → int | loop   (Model/DimWise.subValue = get_subtraction_value, exact version-3 rounding)
   spec:  h:<k>:<i>  (hat of level k, index i on the domain of that dimension)  |  a:<alpha>:<beta>
 -/
 namespace SparseSpace.Drive.C04
@@ -182,6 +185,14 @@ def step (s : St) (line : String) : St × String :=
     match parseSpecs? s.dw.dom specs with
     | some fs => (s, fmtRat (cellIntegral s.dw.dom s.cmin (uOf fs) s.cells))
     | none => (s, "bad-op")
+  | ["subv", v, dim, d, lmin, lmaxd, mcs, ml, l] =>
+    match parseNat? v, parseNat? dim, parseNat? d, parseInt? lmin, parseInt? lmaxd, parseVec? mcs, parseNat? ml, parseInt? l with
+    | some v, some dim, some d, some lmin, some lmaxd, some mcs, some ml, some l =>
+      if dim ≥ 1 && d < dim && mcs.length == dim && lmaxd ≤ 64 && lmaxd ≥ 0 then
+        let r := SparseSpace.subValue v dim d SparseSpace.v3Exact lmin lmaxd mcs ml l
+        (s, if r.2 then toString r.1 else "loop")
+      else (s, "assert")
+    | _, _, _, _, _, _, _, _ => (s, "bad-op")
   | ["thr", l, sub, lmin] =>
     match parseInt? l, parseInt? sub, parseInt? lmin with
     | some l, some sub, some lmin => (s, toString (keepThreshold l sub lmin))
